@@ -20,7 +20,8 @@ RULE = ('trim: for every subset of the four borders a raster (1..7 x 1..7, incl.
         'of the result are compared with the original restricted to the window; attrs a small dict. Also: cells NEAR a listed number '
         '(3e-9 vs 0.0, 100001 vs 100000, -9999.01 vs -9999, 2.000002 vs 2.0) as the only kept cells (trim) / as neighbouring zones (crop), '
         'ids > 2**24, the empty exclusion list, tuple / list / ndarray arguments, int8..uint64 and bool rasters, 15..40-wide rasters, four '
-        'dimension namings, rasters without coordinate labels, repeated / descending labels, the name argument. Thorough tier adds every raster over {0,1,NaN} up to 3x3 for three exclusion sets. '
+        'dimension namings, rasters without coordinate labels, repeated / descending labels, the name argument. Memory layouts: the same '
+        'logical raster C-/F-contiguous, as a transposed view, as a strided+reversed view (read-only, byte-swapped), for every border subset. Thorough tier adds every raster over {0,1,NaN} up to 3x3 for three exclusion sets. '
         'A case is non-trivial when at least one cell is kept and at least one is excluded.')
 TRUSTED = [
     'finite cell values / exclusion values / coordinates of one case are embedded into Z by a common power-of-two scale '
@@ -30,7 +31,7 @@ TRUSTED = [
     'Numba typing of `e == val` between the exclusion tuple and the raster dtype (promotion to float64/int64) is taken to be '
     'exact value equality — true for the generated magnitudes (< 2^53)',
 ]
-ASSUMPTIONS = ['NumPy backend; homogeneous exclusion / id tuples (Numba rejects mixed int/float tuples); 2-D rasters',
+ASSUMPTIONS = ['native byte order (Numba rejects byte-swapped arrays with a TypingError in every kernel: counted, not a violation); NumPy backend; homogeneous exclusion / id tuples (Numba rejects mixed int/float tuples); 2-D rasters',
                'the theorems\' premise: at least one cell is kept (trim) / selected (crop); for crop the values raster has '
                'the zones raster\'s shape']
 PARTIAL = [
@@ -83,13 +84,36 @@ def build_values(vals, as_int, kind):
     return tuple(vs) if kind == 'tuple' else list(vs)
 
 
-def build_raster(data, dtype, ys, xs, attrs=None, aux=True, dims=('y', 'x')):
+LAYOUTS = ['C', 'F', 'T', 'strided', 'readonly', 'nonnative']
+
+
+def apply_layout(a, layout):
+    """the same logical 2-D array in another memory layout"""
+    if layout == 'F':                       # column-major, owning
+        return np.asfortranarray(a)
+    if layout == 'T':                       # transposed view of a C-contiguous (cols, rows) array
+        return np.ascontiguousarray(a.T).T
+    if layout == 'strided':                 # every second row, columns reversed, of a larger array: neither C nor F contiguous
+        base = np.full((2 * a.shape[0] + 1, a.shape[1] + 2), 3, dtype=a.dtype)
+        view = base[1:2 * a.shape[0]:2, a.shape[1]:0:-1]
+        view[...] = a
+        return view
+    if layout == 'readonly':
+        a = a.copy()
+        a.setflags(write=False)
+        return a
+    if layout == 'nonnative':               # byte-swapped dtype (Numba refuses these loudly: see ASSUMPTIONS)
+        return a.astype(a.dtype.newbyteorder()) if a.dtype.itemsize > 1 else a
+    return a
+
+
+def build_raster(data, dtype, ys, xs, attrs=None, aux=True, dims=('y', 'x'), layout='C'):
     """2-D raster with index coordinates along both dims and (aux=True) the non-index coordinates real rasters carry:
     scalar spatial_ref / band, a 2-D lon, and 1-D auxiliary coordinates along each dim; aux='nocoords': no coordinates at all."""
     a = np.array(data, dtype='float64')
     if a.ndim != 2:
         a = a.reshape(len(data), len(xs))
-    a = a.astype(dtype)
+    a = apply_layout(a.astype(dtype), layout)
     rows, cols = a.shape
     dy, dx = dims
     if aux == 'nocoords':
@@ -106,7 +130,7 @@ def build_raster(data, dtype, ys, xs, attrs=None, aux=True, dims=('y', 'x')):
 
 
 def raster_args(case):
-    return dict(aux=case.get('aux', True), dims=tuple(case.get('dims', ('y', 'x'))))
+    return dict(aux=case.get('aux', True), dims=tuple(case.get('dims', ('y', 'x'))), layout=case.get('layout', 'C'))
 
 
 def listed(v, vals, nan_aware):
@@ -183,6 +207,9 @@ def run_trim(ctx, zonal, case):
             excl = [float(v) for v in vals]
             res = zonal.trim(src, values=build_values(vals, case['as_int'], case['kind']), **kw)
     except Exception as e:
+        if case.get('layout') == 'nonnative' and type(e).__name__ == 'TypingError':
+            ctx.count('layout/nonnative-rejected-by-numba')       # loud refusal of a byte-swapped array: outside the domain
+            return None
         ctx.violation('oracle', 'trim(values=%r) raised %s: %s' % (vals, type(e).__name__, str(e)[:200]), case,
                       key=KEY_EMPTY if (vals is not None and len(vals) == 0 and case['kind'] in ('tuple', 'list')) else None)
         return None
@@ -217,7 +244,8 @@ def run_crop(ctx, zonal, case):
     vshape = case.get('vshape') or [len(case['data']), len(case['xs'])]
     vy, vx = case['ys'][:vshape[0]], case['xs'][:vshape[1]]
     vdata = [row[:vshape[1]] for row in case['vdata'][:vshape[0]]]
-    values = build_raster(vdata, case['vdtype'], vy, vx, attrs={'layer': 'values', 'k': 3}, **raster_args(case))
+    values = build_raster(vdata, case['vdtype'], vy, vx, attrs={'layer': 'values', 'k': 3},
+                          **dict(raster_args(case), layout=case.get('vlayout', 'C')))
     zdata = to_floats(zones.data)
     fids = [float(v) for v in ids]
     try:
@@ -226,6 +254,9 @@ def run_crop(ctx, zonal, case):
         if res.name != (case.get('name') or 'crop'):
             ctx.violation('oracle', 'crop(name=%r): result is named %r' % (case.get('name'), res.name), case)
     except Exception as e:
+        if case.get('layout') == 'nonnative' and type(e).__name__ == 'TypingError':
+            ctx.count('layout/nonnative-rejected-by-numba')
+            return None
         ctx.violation('oracle', 'crop raised %s: %s' % (type(e).__name__, str(e)[:200]), case)
         return None
     sel = [[listed(v, fids, False) for v in row] for row in zdata]
@@ -452,8 +483,12 @@ def decorate(i, case):
     return case
 
 
-def one_case(rng, fn, i, borders, rows, cols, sets, thorough=False):
-    vals, as_int, kind, fvals, dtype = pick_set_and_dtype(i, sets, thorough)
+def one_case(rng, fn, i, borders, rows, cols, sets, thorough=False, forced=None):
+    if forced is not None:
+        vals, as_int, kind, dtype = forced
+        fvals = [NAN] if vals is None else [float(v) for v in vals]
+    else:
+        vals, as_int, kind, fvals, dtype = pick_set_and_dtype(i, sets, thorough)
     inn, out = cell_pools(fvals, dtype, fn == 'trim')
     if fn == 'trim':
         inside, outside = out, inn      # kept cells = not listed
@@ -531,6 +566,34 @@ def gen_cases(ctx, fn, n_per_subset):
         yield ('nothing-kept' if empty else 'random'), case
 
 
+def gen_layouts(ctx, fn, count):
+    """the same logical raster C-/F-contiguous, as a transposed view, as a strided+reversed view (read-only and byte-swapped in
+    the thorough tier), kept cells touching every subset of the borders; the expected window does not depend on the layout.
+    Few (values signature, dtype) pairs: every new (layout, signature, dtype) is one more Numba compilation."""
+    rng = ctx.rng
+    if fn == 'trim':
+        combos = [(([0], True, 'tuple'), 'int64'), ((None, False, 'tuple'), 'float64')]
+    else:
+        combos = [(([1, 3], True, 'tuple'), 'int64'), (([2.0], False, 'tuple'), 'float64')]
+    if not ctx.quick():
+        combos += [((c[0]), d) for c in combos[:2] for d in ('float32', 'int32', 'uint8')]
+    lays = LAYOUTS[1:4] if ctx.quick() else LAYOUTS[1:]
+    for i in range(count):
+        (vals, as_int, kind), dtype = combos[i % len(combos)]
+        layout = lays[(i // len(combos)) % len(lays)]
+        if ctx.quick() and i == count - 1:
+            layout = 'nonnative'
+        borders = BORDER_SUBSETS[(i * 7) % len(BORDER_SUBSETS)]
+        minr = 3 - ('top' in borders) - ('bottom' in borders)
+        minc = 3 - ('left' in borders) - ('right' in borders)
+        rows, cols = rng.randint(minr, 8), rng.randint(minc, 8)
+        fam, case = one_case(rng, fn, 6 * i + 1, borders, rows, cols, None, forced=(vals, as_int, kind, dtype))
+        case['layout'] = layout
+        if fn == 'crop':
+            case['vlayout'] = rng.choice(['C', 'F', 'strided'])
+        yield 'layout/%s/%s' % (layout, fam), case
+
+
 def gen_exhaustive(ctx, max_cells=9):
     """every raster over {0, 1, NaN} of every shape with <= max_cells cells, rows, cols <= 3"""
     for rows in (1, 2, 3):
@@ -572,6 +635,9 @@ def run(ctx):
     run_cases(ctx, gen_cases(ctx, 'crop', n if ctx.quick() else n // 2))
     if not ctx.quick():
         run_cases(ctx, gen_exhaustive(ctx))
+    # appended after the older streams so that their rng draws do not shift
+    run_cases(ctx, gen_layouts(ctx, 'trim', 97 if ctx.quick() else 1500))
+    run_cases(ctx, gen_layouts(ctx, 'crop', 97 if ctx.quick() else 1500))
     ctx.exhaustive = False
 
 
@@ -590,7 +656,7 @@ def search(ctx):
 def replay_case(ctx, case):
     zonal = _impl()
     case = {k: v for k, v in case.items() if k in ('fn', 'dtype', 'data', 'values', 'as_int', 'kind', 'ys', 'xs',
-                                                   'vdtype', 'vdata', 'vshape', 'aux', 'dims', 'name')}
+                                                   'vdtype', 'vdata', 'vshape', 'aux', 'dims', 'name', 'layout', 'vlayout')}
 
     def unjson(v):
         return {'nan': NAN, 'inf': float('inf'), '-inf': float('-inf')}.get(v, v) if isinstance(v, str) else v
